@@ -116,7 +116,17 @@ def generate(ctx):
     rng = random.Random(ctx['seed'] * 15485863 + 12)
     quick = ctx['tier'] == 'quick'
     cases = []
+    def distinct_ok(x):
+        # the property quantifies over objects with distinct keys (distinct after folding when case-insensitive)
+        if isinstance(x, Obj):
+            ks = [fold(k, cs_cur[0]) for k, _ in x]
+            return len(ks) == len(set(ks)) and all(distinct_ok(e) for _, e in x)
+        if isinstance(x, list): return all(distinct_ok(e) for e in x)
+        return True
+    cs_cur = [1]
     def add(a, b, cs, same, tag):
+        cs_cur[0] = cs
+        if not all(distinct_ok(x) for x in (a, b) if x != 'NULLARG'): return
         ta = 'NULL' if a == 'NULLARG' else ' '.join(toks(a, rng))
         tb = '' if same else ('NULL' if b == 'NULLARG' else ' '.join(toks(b, rng)))
         cases.append(Case(('compare %d %d %s %s' % (cs, 1 if same else 0, ta, tb)).strip(), {'tags': [tag, 'cs' if cs else 'ci'], 'a': a, 'b': (a if same else b), 'cs': cs, 'same': same}))
